@@ -25,7 +25,7 @@ BUDGET = {"quick": {"shards": 8, "cases": 18}, "thorough": {"shards": 16, "cases
 MIN_NT = {"quick": 500, "thorough": 10000}
 ASSUMPTIONS = ["crash model of the property: a prefix of the ordered, atomic stdio writes on the HDF stream",
                "DD caching at its default (on)"]
-BASES = ["h_elements", "vdata_vgroup", "sd_basic", "gr", "an", "h_many", "dfsd", "h_maxref"]
+BASES = ["h_elements", "vdata_vgroup", "sd_basic", "gr", "an", "h_many", "dfsd", "h_maxref", "h_dense"]
 SESSIONS = ["h_append", "v_append", "sd_append", "gr_append", "an_append", "v_edit", "h_newref"]
 ALL_PREFIX = {"h_append", "v_append", "h_newref"}
 
@@ -57,6 +57,16 @@ def base_program(name, ndds):
         p.call("i", "Hopen", "f.hdf", 7, ndds, bind="f")
         for r_ in (1, 3, 2, 65535):
             p.call("i", "Hputelement", V("f"), 950, r_, bytes([65 + (r_ % 7)]) * 16, 16)
+        p.call("i", "Hclose", V("f"))
+        return p, "f.hdf"
+    if name == "h_dense":
+        # one tag with a long dense run of references followed (in descriptor order) by a far larger one: the
+        # per-tag table of references in use is grown in a jump when the file is loaded
+        p = Prog()
+        k_ = {0: 130, 4: 133, 5: 141, 16: 200}.get(ndds, 130)
+        p.call("i", "Hopen", "f.hdf", 7, ndds, bind="f")
+        for r_ in list(range(1, k_ + 1)) + [1000]:
+            p.call("i", "Hputelement", V("f"), 950, r_, bytes([r_ & 0xff, 0x33]) * 3, 6)
         p.call("i", "Hclose", V("f"))
         return p, "f.hdf"
     if name == "dfsd":
@@ -105,7 +115,10 @@ def session_program(kind, fname, params):
         # new elements under references handed out by the library
         p.call("i", "Hopen", fname, 3, 0, bind="f")
         for i, n in enumerate(params["sizes"]):
-            p.call("u", "Hnewref", V("f"), bind="nr")
+            if params.get("pertag"):
+                p.call("u", "Htagnewref", V("f"), 950, bind="nr")
+            else:
+                p.call("u", "Hnewref", V("f"), bind="nr")
             p.call("i", "hx_put_if_ref", V("f"), 950, V("nr"), bytes([(i * 7 + 1) & 0xff]) * n, n)
         p.raw("!mark flush")
         p.call("i", "Hclose", V("f"))
@@ -193,7 +206,7 @@ def session_program(kind, fname, params):
 
 
 COMPAT = {"h_append": ["h_elements", "h_many", "vdata_vgroup", "an"], "v_append": ["vdata_vgroup", "h_elements", "h_many"],
-          "v_edit": ["vdata_vgroup"], "h_newref": ["h_maxref", "h_many", "h_elements"], "sd_append": ["sd_basic", "dfsd"], "gr_append": ["gr", "h_many"], "an_append": ["an", "h_many", "h_elements"]}
+          "v_edit": ["vdata_vgroup"], "h_newref": ["h_maxref", "h_many", "h_elements", "h_dense", "h_dense"], "sd_append": ["sd_basic", "dfsd"], "gr_append": ["gr", "h_many"], "an_append": ["an", "h_many", "h_elements"]}
 
 
 @st.composite
@@ -209,6 +222,7 @@ def strategy_(draw, tier):
             params["reserve"] = [rsv, draw(st.integers(1, min(rsv - 1, 200)))]
     elif kind == "h_newref":
         params["sizes"] = draw(st.lists(st.integers(1, 16), min_size=1, max_size=6))
+        params["pertag"] = draw(st.booleans())
     elif kind == "v_append":
         params["nvd"] = draw(st.integers(1, 5))
     elif kind == "v_edit":
